@@ -525,7 +525,8 @@ Section Store.
   Lemma resolve_loop_ok fuel : forall st next added tr n log,
     full_ok st -> WellBehaved O reg tr ->
     let '(o, st', _) := resolve_loop O veqb fuel st next added tr n log in
-    full_ok st' /\ (forall t, o = ONoSolution t -> forall a, ~ Solution a).
+    full_ok st' /\ (forall t, o = ONoSolution t ->
+                     exists id, build_derivation_tree (store st') id = Some t /\ terminal_at st' id).
   Proof.
     induction fuel as [|fuel IH]; intros st next added tr n log Hst Hwb; cbn [resolve_loop].
     { split; [exact Hst|discriminate]. }
@@ -536,9 +537,8 @@ Section Store.
     destruct (unit_propagation O (S fuel) st [next]) as [[st1|st1 id]|[|s]];
       try (split; [exact Hst|discriminate]).
     2:{ destruct Hup as [H1 (i & Hi & Ht)].
-        destruct (build_derivation_tree (store st1) id); (split; [exact H1|]); [|discriminate].
-        intros t0 _ a. eapply terminal_no_solution; [|exact Ht].
-        exact (proj2 (proj2 (store_just_nth _ (proj1 (proj1 H1)) id i Hi))). }
+        destruct (build_derivation_tree (store st1) id) as [t0|] eqn:Eb; (split; [exact H1|]); [|discriminate].
+        intros t1 Et. injection Et as <-. exists id. split; [exact Eb|]. exists i. split; assumption. }
     (* prioritize calls *)
     assert (Hprio : forall cands q tr0 k,
                WellBehaved O reg tr0 ->
@@ -628,7 +628,19 @@ Section Store.
   Proof.
     intros Hwb E. unfold resolve in E.
     pose proof (resolve_loop_ok fuel (state_init O r rv) r [] tr 0 [] state_init_ok Hwb) as H.
-    rewrite E in H. destruct H as [Hok Hn]. split; [|exact Hn].
-    intros id i Hi. exact (proj2 (proj2 (store_just_nth _ (proj1 (proj1 Hok)) id i Hi))).
+    rewrite E in H. destruct H as [Hok Hn]. split.
+    - intros id i Hi. exact (proj2 (proj2 (store_just_nth _ (proj1 (proj1 Hok)) id i Hi))).
+    - intros t Et a. destruct (Hn t Et) as (id & _ & i & Hi & Ht).
+      eapply terminal_no_solution; [|exact Ht].
+      exact (proj2 (proj2 (store_just_nth _ (proj1 (proj1 Hok)) id i Hi))).
+  Qed.
+
+  Theorem resolve_nosolution_tree fuel tr t st log :
+    WellBehaved O reg tr -> resolve O veqb fuel r rv tr = (ONoSolution t, st, log) ->
+    store_just (store st) /\ exists id, build_derivation_tree (store st) id = Some t /\ terminal_at st id.
+  Proof.
+    intros Hwb E. unfold resolve in E.
+    pose proof (resolve_loop_ok fuel (state_init O r rv) r [] tr 0 [] state_init_ok Hwb) as H.
+    rewrite E in H. destruct H as [Hok Hn]. split; [exact (proj1 (proj1 Hok))|]. exact (Hn t eq_refl).
   Qed.
 End Store.
